@@ -68,15 +68,16 @@ Proof.
 Qed.
 Print Assumptions C17_fresh_and_null_default.
 
-(* jose_cfg_get_err_misc returns the pointer last registered -- this holds for the REPAIRED
-   model ([Fixed]: `return cfg->misc;`) ... *)
-Theorem C17_get_misc_fixed_model : forall st0 st1 st2 c h m mid,
-  cstep Fixed st0 (OpSet (Some c) h m) = (st1, OOk) ->
-  no_reg c mid = true -> st2 = crun Fixed st1 mid -> cfind c (ctxs st2) <> None ->
-  snd (cstep Fixed st2 (OpGet (Some c))) = OPtr (PMisc m).
+(* jose_cfg_get_err_misc returns the pointer last registered -- this holds for every variant of
+   the model in which the function is REPAIRED (`return cfg->misc;`), in particular [Fixed] ... *)
+Theorem C17_get_misc_fixed_model : forall v, get_returns_misc v = true ->
+  forall st0 st1 st2 c h m mid,
+  cstep v st0 (OpSet (Some c) h m) = (st1, OOk) ->
+  no_reg c mid = true -> st2 = crun v st1 mid -> cfind c (ctxs st2) <> None ->
+  snd (cstep v st2 (OpGet (Some c))) = OPtr (PMisc m).
 Proof.
-  intros st0 st1 st2 c h m mid H1 H2 H3 H4.
-  exact (get_fixed Fixed st0 st1 st2 c h m mid H1 H2 H3 H4 eq_refl).
+  intros v Hv st0 st1 st2 c h m mid H1 H2 H3 H4.
+  exact (get_fixed v st0 st1 st2 c h m mid H1 H2 H3 H4 Hv).
 Qed.
 Print Assumptions C17_get_misc_fixed_model.
 
@@ -94,14 +95,15 @@ Proof.
 Qed.
 Print Assumptions C17_get_misc_refuted.
 
-(* in general, the current code returns whatever handler is registered *)
-Theorem C17_get_misc_current_returns_handler : forall st0 st1 st2 c h m mid,
-  cstep Current st0 (OpSet (Some c) h m) = (st1, OOk) ->
-  no_reg c mid = true -> st2 = crun Current st1 mid -> cfind c (ctxs st2) <> None ->
-  snd (cstep Current st2 (OpGet (Some c))) = OPtr (match h with Some k => PHandler k | None => PDefault end).
+(* in general, the code as it is returns whatever handler is registered *)
+Theorem C17_get_misc_current_returns_handler : forall v, get_returns_misc v = false ->
+  forall st0 st1 st2 c h m mid,
+  cstep v st0 (OpSet (Some c) h m) = (st1, OOk) ->
+  no_reg c mid = true -> st2 = crun v st1 mid -> cfind c (ctxs st2) <> None ->
+  snd (cstep v st2 (OpGet (Some c))) = OPtr (match h with Some k => PHandler k | None => PDefault end).
 Proof.
-  intros st0 st1 st2 c h m mid H1 H2 H3 H4.
-  exact (get_current Current st0 st1 st2 c h m mid H1 H2 H3 H4 eq_refl).
+  intros v Hv st0 st1 st2 c h m mid H1 H2 H3 H4.
+  exact (get_current v st0 st1 st2 c h m mid H1 H2 H3 H4 Hv).
 Qed.
 Print Assumptions C17_get_misc_current_returns_handler.
 
@@ -177,6 +179,14 @@ Example C17_ex_two_contexts :
      OOk; OSkip;
      OEvent {| ev_ctx := None; ev_handler := None; ev_misc := 0; ev_code := 106 |}].
 Proof. vm_compute. reflexivity. Qed.
+
+(* NULL handed to jose_cfg_decref / jose_cfg_auto: dereferenced by the code as it is (the process dies),
+   tolerated by the repaired variant; jose_cfg_err and jose_cfg_incref accept NULL in both *)
+Example C17_ex_null :
+  crun_out Current cinit [OpErr None 101; OpIncref None; OpAuto None; OpErr None 102] =
+    [OEvent {| ev_ctx := None; ev_handler := None; ev_misc := 0; ev_code := 101 |}; OOk; OCrash] /\
+  crun_out Fixed cinit [OpIncref None; OpAuto None; OpDecref None] = [OOk; OOk; OOk].
+Proof. vm_compute. split; reflexivity. Qed.
 
 (* the premises of C17_handler_gets_own_misc hold for a concrete non-trivial middle history *)
 Example C17_ex_premises :
